@@ -155,6 +155,10 @@ func ruleC18GCMLayout(c *Ctx) {
 		if !ok || b.Op != token.SUB || !isNonceSize(b.Y) {
 			return false
 		}
+		// the buffer's own length: len(buf), or the very value buf was made with
+		if mk, isMk := resolve(of).(*ssa.MakeSlice); isMk && resolve(b.X) == resolve(mk.Len) {
+			return true
+		}
 		cv, ok := resolve(b.X).(*ssa.Call)
 		if !ok {
 			return false
